@@ -44,6 +44,19 @@ def run(c):
             if len(pres) == 1: per_slot.setdefault(pres[0], []).append(w)
         reps = {k: v[len(v) // 2] for k, v in per_slot.items()}
         add(m, merge_wants(m, list(reps.values()) or ws[:1]))                       # full set
+        # header octets that routing does not interpret (security header type / spare half octet; PDU session identity, PTI;
+        # the envelope's security header type): every low-nibble value and the extremes, on the full set and on the bare message
+        fullw0 = merge_wants(m, list(reps.values()) or ws[:1])
+        hv = list(range(1, 17)) + [0x45, 0x7F, 0x80, 0xF7, 0xFE, 0xFF]
+        for x in hv:
+            for w0 in ((fullw0, ws[0]) if (thorough or x < 17) else (fullw0,)):
+                w = json.loads(json.dumps(w0))
+                w["mand"][1]["v"] = [x]
+                if t["family"] == "GSM": w["mand"][2]["v"] = [(x * 37 + 5) % 256]
+                add(m, w)
+        if t["family"] == "GSM":
+            for x in hv[::3]:
+                w = json.loads(json.dumps(ws[0])); w["mand"][2]["v"] = [x]; add(m, w)
         ks = sorted(reps)
         if nopt <= (10 if thorough else 5):                                          # all subsets
             for r in range(2, len(ks) + 1):
